@@ -31,37 +31,35 @@ packets are trivial. enums: distinct by (field, ordinal; ordinals of magnitude >
 (33 + 65 classes) although every evaluated value is a different number; 'observed' has the number of values evaluated.";
 
 enum Item {
-    Sweep(&'static str),
-    Random(&'static str, u64),
+    /// one packet type: the one-at-a-time sweep over its pools (if `sweep`) and `random` random combinations
+    Packet { packet: &'static str, sweep: bool, random: u64 },
     Enums,
 }
 
 fn run_item(base: &Report, cli: &Cli, cfg: &Cfg, idx: usize, item: &Item) -> Report {
     let mut rep = base.fork();
     let mut cx = Ctx::new(&mut rep, false);
-    let tt = std::time::Instant::now();
-    let label = match item { Item::Sweep(p) => format!("sweep {p}"), Item::Random(p, n) => format!("random {p} {n}"), Item::Enums => "enums".to_string() };
     let mut rng = Rng::stream(cli.seed, 0x1000 + idx as u64);
     match item {
-        Item::Sweep(p) => {
-            let spec = cases::spec_for(p, &mut rng, cfg);
-            eprintln!("T {label} spec {:?}", tt.elapsed());
+        Item::Packet { packet, sweep, random } => {
+            let spec = cases::spec_for(packet, &mut rng, cfg);
             let trivial = spec.is_empty();
-            let mut pick = Rng::stream(cli.seed, 0x5000_0000 + idx as u64);
-            cases::sweep_cases(p, &spec, cfg, &mut pick, |case| {
-                if trivial {
-                    cx.rep.eval(None);
-                } else {
-                    cx.rep.eval(Some(&cases::case_class(&case)));
-                }
-                packets::run_case(&mut cx, &case);
-            });
-        }
-        Item::Random(p, n) => {
-            let spec = cases::spec_for(p, &mut rng, cfg);
-            eprintln!("T {label} spec {:?}", tt.elapsed());
-            for _ in 0..*n {
-                let case = cases::random_case(p, &spec, &mut rng);
+            if trivial != cases::is_placeholder(packet) {
+                cx.rep.inconclusive_fatal(&format!("harness error: placeholder table and field table disagree on {packet}"));
+            }
+            if *sweep {
+                let mut pick = Rng::stream(cli.seed, 0x5000_0000 + idx as u64);
+                cases::sweep_cases(packet, &spec, cfg, &mut pick, |case| {
+                    if trivial {
+                        cx.rep.eval(None);
+                    } else {
+                        cx.rep.eval(Some(&cases::case_class(&case)));
+                    }
+                    packets::run_case(&mut cx, &case);
+                });
+            }
+            for _ in 0..*random {
+                let case = cases::random_case(packet, &spec, &mut rng);
                 cx.rep.eval(Some(&cases::case_class(&case)));
                 packets::run_case(&mut cx, &case);
             }
@@ -74,7 +72,6 @@ fn run_item(base: &Report, cli: &Cli, cfg: &Cfg, idx: usize, item: &Item) -> Rep
         }
     }
     cx.flush();
-    eprintln!("T {label} done {:?} evals {}", tt.elapsed(), rep.evaluations());
     rep
 }
 
@@ -83,15 +80,18 @@ fn packet_workload(report: &mut Report, cli: &Cli, cfg: &Cfg) {
     let batch = 50u64;
     let mut items: Vec<Item> = vec![Item::Enums];
     for p in cases::PACKETS {
-        items.push(Item::Sweep(p));
-        let probe = cases::spec_for(p, &mut Rng::new(0), &Cfg { scale: 0.0, thorough: false });
-        if probe.is_empty() {
-            continue; // a placeholder has exactly one value
+        if cases::is_placeholder(p) {
+            items.push(Item::Packet { packet: p, sweep: true, random: 0 }); // exactly one value
+            continue;
         }
+        // the value pools are built once per item: one item when the random share is small
         let mut left = per_type;
+        let first = if per_type <= batch { per_type } else { 0 };
+        items.push(Item::Packet { packet: p, sweep: true, random: first });
+        left -= first;
         while left > 0 {
             let n = left.min(batch);
-            items.push(Item::Random(p, n));
+            items.push(Item::Packet { packet: p, sweep: false, random: n });
             left -= n;
         }
     }
